@@ -7,6 +7,7 @@ import (
 	"bytes"
 	"encoding/json"
 	"fmt"
+	"os"
 	"sort"
 	"strings"
 
@@ -613,6 +614,23 @@ func init() {
 			return err
 		}
 		defer out.close()
+		// optional: record the per-instruction trace of the first configuration's runs (code -> spec)
+		var tr *tracer
+		every, off, ncase := 1, 0, 0
+		if spec := os.Getenv("VERIF_TRACE_OUT"); spec != "" {
+			parts := strings.Split(spec, ",")
+			if tr, err = newTracer(parts[0]); err != nil {
+				return err
+			}
+			tr.install()
+			tr.pause(true)
+			defer tr.close(parts[1])
+			fmt.Sscan(os.Getenv("VERIF_TRACE_EVERY"), &every)
+			if every < 1 {
+				every = 1
+			}
+			off = int(seed()) % every
+		}
 		return readCases(args[0], func(raw []byte) error {
 			var c semCase
 			if err := json.Unmarshal(raw, &c); err != nil {
@@ -623,8 +641,15 @@ func init() {
 			r := N{"fam": c.Fam, "id": c.ID, "src": src, "want": want, "mayrefuse": c.MayRefuse, "refknown": c.RefKnown == nil || *c.RefKnown, "refused": c.Refused, "refopt": c.RefOpt, "modrefused": c.ModRefused}
 			got := N{}
 			ok := true
-			for _, cf := range cfgs {
+			ncase++
+			for ci, cf := range cfgs {
+				if tr != nil {
+					tr.pause(!(ci == 0 && ncase%every == off))
+				}
 				obs, cerr, pan := semRun(c.Prog, cf, src)
+				if tr != nil {
+					tr.pause(true)
+				}
 				switch {
 				case pan != nil:
 					got[cf.Name] = fmt.Sprint("PANIC: ", pan)
@@ -641,6 +666,9 @@ func init() {
 			}
 			r["got"] = got
 			r["ok"] = ok
+			if tr != nil {
+				r["tag"] = tr.runs
+			}
 			out.put(r)
 			return nil
 		})
